@@ -45,7 +45,8 @@ import extract
 from extract import ExtractError, lstr
 from extractors import _norm_c14 as N
 
-extract.MODELLED += [("esr/fitting/likelihood.py", "Likelihood", "__init__")]
+extract.MODELLED += [("esr/fitting/likelihood.py", "Likelihood", "__init__"), ("esr/fitting/test_all.py", None, "main"),
+                     ("esr/fitting/test_all_Fisher.py", None, "main"), ("esr/fitting/test_all_Fisher.py", None, "load_loglike")]
 
 CREATORS = ("mkdir", "makedirs")
 INERT_CALLS = ("print", "sys.setrecursionlimit", "len", "int", "float", "str", "np.ceil")
